@@ -7,12 +7,12 @@ VARIABLES par, pred
 vars == <<par, pred>>
 Opaque(e) == IF e \in {1, 2} THEN 1 ELSE IF e = 3 THEN 3 ELSE 0
 Init == /\ par \in [etag : 0..3, inm : {s \in SUBSET {1, 2, 3, 4} : Cardinality(s) <= 2}, ims : {"none", "lt", "eq", "gt"},
-                    ifm : 0..4, shape : {"cached", "reval304", "reval200"}]
-        /\ (par.shape # "cached" => par.inm = {} /\ par.ims = "none" /\ par.ifm = 0)
+                    ifm : 0..4, shape : {"cached", "reval304", "reval200", "reval304c"}]   \* reval304c: the stale entry is requested WITH client validators
+        /\ (par.shape \in {"reval304", "reval200"} => par.inm = {} /\ par.ims = "none" /\ par.ifm = 0)
         /\ pred = "?"
 IfMatchOk == par.ifm = 0 \/ par.ifm = 4 \/ (par.ifm \in {1, 3} /\ par.ifm = par.etag)
 InmMatch == 4 \in par.inm \/ \E e \in par.inm : Opaque(e) # 0 /\ Opaque(e) = Opaque(par.etag)
-Predict == IF par.shape # "cached" THEN "200"
+Predict == IF par.shape \in {"reval304", "reval200"} THEN "200"
            ELSE IF ~IfMatchOk THEN "412"
            ELSE IF par.inm # {} THEN (IF InmMatch THEN "304" ELSE "200")
            ELSE IF par.ims \in {"eq", "gt"} THEN "304" ELSE "200"
